@@ -858,6 +858,187 @@ Section Proofs.
   Proof. unfold ds_matrix, ds_scale. simpl. rewrite dense_matrix_scale. apply dense_matrix_coef_ext. ring. Qed.
   Theorem ds_neg_sound (a : dstr) : ds_matrix O (ds_neg O a) = mscale O (- z1) (ds_matrix O a).
   Proof. unfold ds_matrix, ds_neg. simpl. rewrite dense_matrix_scale. apply dense_matrix_coef_ext. ring. Qed.
+
+  (* ----- D3: PauliSum as a finitely supported linear combination; +, -, scalar, * are matrix homomorphisms ----- *)
+  Lemma map_const_repeat {A B} (c : B) (l : list A) : map (fun _ => c) l = repeat c (length l).
+  Proof. induction l; simpl; congruence. Qed.
+  Lemma bits_length n : length (bits n) = Nat.pow 2 n.
+  Proof. induction n as [|n IH]; simpl; [reflexivity|]. rewrite app_length, !map_length, IH. lia. Qed.
+  Lemma mzero_tab n : mzero O (Nat.pow 2 n) (Nat.pow 2 n) = tabm (bits n) (fun _ _ => z0).
+  Proof.
+    unfold mzero, tabm. rewrite <- bits_length.
+    rewrite (map_ext _ (fun _ => repeat z0 (length (bits n)))) by (intros; apply map_const_repeat).
+    rewrite map_const_repeat. reflexivity.
+  Qed.
+  Definition psum_entry (qs : list qid) (s : psum) (r c : list bool) : K :=
+    ksum O (map (fun e => snd e * pl_entry (letters qs (fst e)) r c) s).
+  Lemma psum_matrix_tab qs s : psum_matrix O qs s = tabm (bits (length qs)) (psum_entry qs s).
+  Proof.
+    induction s as [|e s IH]; simpl.
+    - rewrite mzero_tab. apply tabm_ext. intros; reflexivity.
+    - rewrite IH. unfold ps_matrix. simpl. rewrite dense_matrix_tab, letters_length, madd_tabm.
+      apply tabm_ext. intros r c. reflexivity.
+  Qed.
+  Lemma pm_eqb_eq : forall a b, pm_eqb a b = true -> a = b.
+  Proof.
+    unfold pm_eqb. induction a as [|[k p] a IH]; intros [|[k' p'] b] H; try discriminate; [reflexivity|].
+    apply andb_prop in H. destruct H as [H Hr]. apply andb_prop in H. destruct H as [Hk Hp].
+    apply Z.eqb_eq in Hk. subst k'. assert (p = p') by (destruct p, p'; try discriminate; reflexivity). subst p'.
+    f_equal. apply IH. exact Hr.
+  Qed.
+  Lemma psum_entry_ld_add qs key c s r c' :
+    psum_entry qs (ld_add O key c s) r c' = c * pl_entry (letters qs key) r c' + psum_entry qs s r c'.
+  Proof.
+    unfold psum_entry. induction s as [|[k x] s IH]; simpl.
+    - unfold ksum. simpl. ring.
+    - destruct (pm_eqb k key) eqn:He.
+      + apply pm_eqb_eq in He. subst k. unfold ksum. simpl. ring.
+      + unfold ksum in *. simpl. rewrite IH. ring.
+  Qed.
+  Lemma psum_entry_fold_add qs (f : K -> K) : forall b a r c,
+    psum_entry qs (fold_left (fun s e => ld_add O (fst e) (f (snd e)) s) b a) r c
+    = psum_entry qs a r c + ksum O (map (fun e => f (snd e) * pl_entry (letters qs (fst e)) r c) b).
+  Proof.
+    induction b as [|e b IH]; intros a r c; simpl.
+    - unfold ksum. simpl. ring.
+    - rewrite IH, psum_entry_ld_add. unfold ksum. simpl. ring.
+  Qed.
+  Theorem psum_add_sound qs a b : psum_matrix O qs (psum_add O a b) = madd O (psum_matrix O qs a) (psum_matrix O qs b).
+  Proof.
+    rewrite !psum_matrix_tab, madd_tabm. apply tabm_ext. intros r c. unfold psum_add.
+    rewrite (psum_entry_fold_add qs (fun x => x)). reflexivity.
+  Qed.
+  Theorem psum_neg_sound qs a : psum_matrix O qs (psum_neg O a) = mscale O (- z1) (psum_matrix O qs a).
+  Proof.
+    rewrite !psum_matrix_tab, mscale_tabm. apply tabm_ext. intros r c. unfold psum_neg, psum_entry.
+    rewrite map_map. simpl. rewrite <- ksum_scale. apply ksum_ext. intros; ring.
+  Qed.
+  Theorem psum_sub_sound qs a b :
+    psum_matrix O qs (psum_sub O a b) = madd O (psum_matrix O qs a) (mscale O (- z1) (psum_matrix O qs b)).
+  Proof.
+    rewrite !psum_matrix_tab, mscale_tabm, madd_tabm. apply tabm_ext. intros r c. unfold psum_sub.
+    rewrite (psum_entry_fold_add qs (fun x => - x)). f_equal. unfold psum_entry. rewrite <- ksum_scale. apply ksum_ext. intros; ring.
+  Qed.
+  Theorem psum_scale_sound qs a c : psum_matrix O qs (psum_scale O a c) = mscale O c (psum_matrix O qs a).
+  Proof.
+    rewrite !psum_matrix_tab, mscale_tabm. apply tabm_ext. intros r c'. unfold psum_scale, psum_entry.
+    rewrite map_map. simpl. rewrite <- ksum_scale. apply ksum_ext. intros; ring.
+  Qed.
+
+  (* sorting a duplicate-free item list does not change any lookup *)
+  Lemma pm_insert_keys e m k : In k (pm_keys (pm_insert e m)) <-> k = fst e \/ In k (pm_keys m).
+  Proof.
+    induction m as [|x m IH]; simpl; [intuition|].
+    destruct (fst e <=? fst x)%Z; simpl; [intuition|]. rewrite IH. intuition.
+  Qed.
+  Lemma pm_get_insert e m q : ~ In (fst e) (pm_keys m) ->
+    pm_get (pm_insert e m) q = if (fst e =? q)%Z then snd e else pm_get m q.
+  Proof.
+    destruct e as [k p]. simpl. induction m as [|[k' p'] m IH]; simpl; intros Hn; [reflexivity|].
+    destruct (k <=? k')%Z; simpl; [reflexivity|].
+    rewrite IH by (intros H; apply Hn; right; exact H).
+    destruct (Z.eqb_spec k' q) as [->|]; [|reflexivity].
+    destruct (Z.eqb_spec k q) as [->|]; [exfalso; apply Hn; left; reflexivity|reflexivity].
+  Qed.
+  Lemma pm_sort_get m : NoDup (pm_keys m) -> (forall q, pm_get (pm_sort m) q = pm_get m q)
+                                             /\ (forall k, In k (pm_keys (pm_sort m)) <-> In k (pm_keys m)).
+  Proof.
+    induction m as [|[k p] m IH]; simpl; intros Hnd; [split; intros; tauto|].
+    inversion Hnd as [|? ? Hk Hnd']. subst. destruct (IH Hnd') as [Hg Hkeys]. split.
+    - intros q. rewrite pm_get_insert by (simpl; rewrite Hkeys; exact Hk). simpl. rewrite Hg. reflexivity.
+    - intros k0. rewrite pm_insert_keys. simpl. rewrite Hkeys. intuition.
+  Qed.
+  Lemma letters_sort qs m : NoDup (pm_keys m) -> letters qs (pm_sort m) = letters qs m.
+  Proof. intros H. unfold letters. apply map_ext. intros q. apply (proj1 (pm_sort_get m H)). Qed.
+
+  Lemma ksum_flat_map {A B} (F : B -> K) (G : A -> list B) l :
+    ksum O (map F (flat_map G l)) = ksum O (map (fun a => ksum O (map F (G a))) l).
+  Proof.
+    induction l as [|a l IH]; simpl; [reflexivity|]. rewrite map_app, ksum_app, IH. reflexivity.
+  Qed.
+  Lemma ksum_mul {A B} (f : A -> K) (g : B -> K) la lb :
+    ksum O (map f la) * ksum O (map g lb) = ksum O (map (fun a => ksum O (map (fun b => f a * g b) lb)) la).
+  Proof.
+    induction la as [|a la IH]; unfold ksum in *; simpl; [ring|].
+    rewrite <- IH. fold (ksum O (map (fun b => f a * g b) lb)). rewrite ksum_scale. unfold ksum. ring.
+  Qed.
+  Lemma tabm_inj E f g : tabm E f = tabm E g -> forall r c, In r E -> In c E -> f r c = g r c.
+  Proof.
+    unfold tabm. intros H r c Hr Hc.
+    assert (H1 := ext_in_map H r Hr). simpl in H1. exact (ext_in_map H1 c Hc).
+  Qed.
+  Lemma tabm_ext_in E f g : (forall r c, In r E -> In c E -> f r c = g r c) -> tabm E f = tabm E g.
+  Proof. intros H. unfold tabm. apply map_ext_in. intros r Hr. apply map_ext_in. intros c Hc. apply H; assumption. Qed.
+
+  Definition psum_ok (qs : list qid) (s : psum (K:=K)) : Prop := Forall (fun e => keys_ok qs (fst e)) s.
+  Lemma ps_mul_keys_ok qs (t u : pstr) : keys_ok qs (pm t) -> keys_ok qs (pm u) -> keys_ok qs (pm (ps_mul O t u)).
+  Proof.
+    intros Ht Hu. unfold ps_mul, ps_make, imul_contents, imul_seq. simpl fold_left.
+    apply imul_keys_ok; [exact Ht|]. apply (imul_keys_ok (-1) qs (ps_empty O) u (keys_ok_nil qs)). apply Hu.
+  Qed.
+  (* entry form of pauli_mul_sound *)
+  Lemma ps_mul_entry qs (t u : pstr) r c : NoDup qs -> keys_ok qs (pm u) ->
+    In r (bits (length qs)) -> In c (bits (length qs)) ->
+    coef (ps_mul O t u) * pl_entry (letters qs (pm (ps_mul O t u))) r c
+    = ksum O (map (fun m => (coef t * pl_entry (letters qs (pm t)) r m) * (coef u * pl_entry (letters qs (pm u)) m c))
+                  (bits (length qs))).
+  Proof.
+    intros Hqs Hu Hr Hc. pose proof (pauli_mul_sound qs t u Hqs Hu) as H. unfold ps_matrix in H.
+    rewrite !dense_matrix_tab, !letters_length, mmul_tabm in H by apply bits_nonempty.
+    exact (tabm_inj _ _ _ H r c Hr Hc).
+  Qed.
+  Lemma psum_entry_of_terms qs : forall l s0 r c,
+    psum_entry qs (fold_left (fun s t => ld_add O (pm_sort (pm t)) (coef t) s) l s0) r c
+    = psum_entry qs s0 r c + ksum O (map (fun t => coef t * pl_entry (letters qs (pm_sort (pm t))) r c) l).
+  Proof.
+    induction l as [|t l IH]; intros s0 r c; simpl.
+    - unfold ksum. simpl. ring.
+    - rewrite IH, psum_entry_ld_add. unfold ksum. simpl. ring.
+  Qed.
+  Theorem psum_mul_sound qs a b : NoDup qs -> psum_ok qs a -> psum_ok qs b ->
+    psum_matrix O qs (psum_mul O a b) = mmul O (psum_matrix O qs a) (psum_matrix O qs b).
+  Proof.
+    intros Hqs Ha Hb. rewrite !psum_matrix_tab, mmul_tabm by apply bits_nonempty.
+    apply tabm_ext_in. intros r c Hr Hc. unfold psum_mul, psum_of_terms.
+    rewrite psum_entry_of_terms. unfold psum_entry at 1. simpl map at 1.
+    transitivity (ksum O (map (fun t => ksum O (map (fun u =>
+        ksum O (map (fun m => (snd t * pl_entry (letters qs (fst t)) r m) * (snd u * pl_entry (letters qs (fst u)) m c))
+                    (bits (length qs)))) b)) a)).
+    - unfold ksum at 1. simpl fold_right. rewrite ksum_flat_map.
+      transitivity (ksum O (map (fun t => ksum O (map (fun u =>
+          coef (ps_mul O (mkP (snd t) (fst t)) (mkP (snd u) (fst u)))
+          * pl_entry (letters qs (pm (ps_mul O (mkP (snd t) (fst t)) (mkP (snd u) (fst u))))) r c) b)) a)).
+      + unfold psum_terms. rewrite map_map.
+        assert (Hz : forall x, z0 + x = x) by (intros; ring). rewrite Hz.
+        f_equal. apply map_ext_in. intros t Ht. rewrite !map_map. f_equal. apply map_ext_in. intros u Hu0.
+        rewrite letters_sort; [reflexivity|].
+        apply (ps_mul_keys_ok qs (mkP (snd t) (fst t)) (mkP (snd u) (fst u))).
+        * exact (proj1 (Forall_forall _ _) Ha t Ht).
+        * exact (proj1 (Forall_forall _ _) Hb u Hu0).
+      + f_equal. apply map_ext_in. intros t Ht. f_equal. apply map_ext_in. intros u Hu0.
+        apply (ps_mul_entry qs (mkP (snd t) (fst t)) (mkP (snd u) (fst u)) r c Hqs); try assumption.
+        exact (proj1 (Forall_forall _ _) Hb u Hu0).
+    - (* exchange the sums: sum_t sum_u sum_m = sum_m (sum_t)(sum_u) *)
+      unfold psum_entry.
+      rewrite (ksum_ext (fun m => ksum O (map _ a) * ksum O (map _ b))
+                        (fun m => ksum O (map (fun t => ksum O (map (fun u =>
+                           (snd t * pl_entry (letters qs (fst t)) r m) * (snd u * pl_entry (letters qs (fst u)) m c)) b)) a)))
+        by (intros m; apply ksum_mul).
+      rewrite (ksum_swap (fun m t => ksum O (map (fun u => (snd t * pl_entry (letters qs (fst t)) r m)
+                                                   * (snd u * pl_entry (letters qs (fst u)) m c)) b)) (bits (length qs)) a).
+      f_equal. apply map_ext. intros t.
+      rewrite (ksum_swap (fun m u => (snd t * pl_entry (letters qs (fst t)) r m) * (snd u * pl_entry (letters qs (fst u)) m c))
+                         (bits (length qs)) b). reflexivity.
+  Qed.
+  (* the ring-homomorphism statement of D3 in one place *)
+  Theorem paulisum_ring_hom qs a b c : NoDup qs -> psum_ok qs a -> psum_ok qs b ->
+    psum_matrix O qs (psum_add O a b) = madd O (psum_matrix O qs a) (psum_matrix O qs b)
+    /\ psum_matrix O qs (psum_sub O a b) = madd O (psum_matrix O qs a) (mscale O (- z1) (psum_matrix O qs b))
+    /\ psum_matrix O qs (psum_scale O a c) = mscale O c (psum_matrix O qs a)
+    /\ psum_matrix O qs (psum_mul O a b) = mmul O (psum_matrix O qs a) (psum_matrix O qs b).
+  Proof.
+    intros Hqs Ha Hb. repeat split; [apply psum_add_sound|apply psum_sub_sound|apply psum_scale_sound|apply psum_mul_sound; assumption].
+  Qed.
 End Proofs.
 
 (* ---------- the executable comparison instance Q(i) satisfies the laws the theorems assume ---------- *)
